@@ -35,6 +35,9 @@ def gen_cases(tier, seed):
             desc = dict(desc)
             desc['edges'] = [list(e) for e in desc['edges']] + [[i, i] for i in r.sample(range(nn), r.randint(1, min(nn, 2)))]
             desc['selfloops'] = True
+        if r.random() < 0.2:
+            desc = dict(desc)
+            desc['directed'] = True        # contacts with a direction (a node may have in-edges and no out-edge)
         I0 = r.sample(range(nn), r.randint(1, min(nn, 3)))
         tmin = r.choice([0, -2, 1.5, -0.5, 1600000000])          # incl. an absolute clock (seconds since an epoch)
         tmax = tmin + r.choice([1.0, 3.0, 7.0])
@@ -215,6 +218,8 @@ def run_exact(case, res):
         viol(res, 'fast_nonMarkov_SIS|' + ('delay_function_receives_the_infection_duration' if not isinstance(argbad[0][0], str) else 'rule_receives_its_own_extra_arguments'), {'node,nbr,passed,drawn': [repr(x) for x in argbad[0]]})
         return
     bump(res, 'histories_compared')
+    if G.is_directed():
+        bump(res, 'histories_compared_on_directed_networks')
     if case['graph'].get('selfloops'):
         bump(res, 'histories_compared_on_graphs_with_self_loops')
         bump(res, 'self_infections_in_reference', sum(1 for (t_, a_, b_) in trans if a_ is not None and a_ == b_))
